@@ -202,11 +202,67 @@ def source(prog):
     return "".join(out)
 
 
+# histories of sessions in one real directory with the bytecode cache ON (the Python default): the compared value comes from the
+# environment, the file is dated back before every session (so a rewrite on the unchanged tree always changes its mtime); every
+# session must judge the value against what the source holds now, not against what an earlier session compiled
+H_OPS = {"==": ("assert int(os.environ['VALUE']) == snapshot(4)", lambda v, s: v == s), "<=": ("assert int(os.environ['VALUE']) <= snapshot(4)", lambda v, s: v <= s),
+         "in": ("assert int(os.environ['VALUE']) in snapshot([4])", None)}
+
+
+def _histories(tier):
+    out = []
+    for op in (("==", "<=") if tier == "quick" else ("==", "<=", "in")):
+        for vals in itertools.product((4, 5), repeat=3):
+            for fls in itertools.product(([], ["fix"]), repeat=3):
+                if fls[0] == [] and fls[1] == []:
+                    continue  # nothing is ever rewritten before the last session
+                out.append({"history": {"op": op, "values": list(vals), "flags": [list(f) for f in fls]}})
+    return out
+
+
+def _run_history(case):
+    import os
+    import time
+    from ..drivers import plugin
+
+    h = case["history"]
+    src = "import os\nfrom inline_snapshot import snapshot\n\n\ndef test_a():\n    %s\n" % H_OPS[h["op"]][0]
+    d = plugin.mk_project({"test_something.py": src, "pyproject.toml": ""})
+    viol = []
+    stored = 4 if h["op"] != "in" else [4]
+    try:
+        for i, (v, fl) in enumerate(zip(h["values"], h["flags"])):
+            old = time.time() - 5000 - 100 * (3 - i)
+            os.utime(os.path.join(d, "test_something.py"), (old, old))
+            r = plugin.session(d, ["--inline-snapshot=" + ",".join(fl)] if fl else [], env={"VALUE": str(v)}, bytecode=True)
+            text = plugin.listing(d, text=True)["test_something.py"]
+            bad = (v not in stored) if h["op"] == "in" else not H_OPS[h["op"]][1](v, stored)
+            got = r["outcomes"].get(T + "test_a", [])
+            failed = any(g in ("FAILED", "ERROR") for g in got)
+            det = "session %d of %s: VALUE=%s flags=%s, the source held %r; outcomes=%s rc=%s\n--- file now ---\n%s--- output tail ---\n%s" % (i, h, v, fl, stored, got, r["rc"], text, r["out"][-800:])
+            if plugin.internal_error(r["out"]) or r["rc"] not in (0, 1):
+                viol.append({"case": case, "what": "internal-error", "detail": det})
+                break
+            if bad and (not failed or r["rc"] == 0):
+                viol.append({"case": case, "what": "green-with-bad-snapshot", "detail": det})
+                break
+            if not bad and (failed or r["rc"] != 0):
+                viol.append({"case": case, "what": "good-test-not-passed", "detail": det})
+                break
+            if bad and "fix" in fl:
+                stored = (stored + [v]) if h["op"] == "in" else v
+    finally:
+        plugin.cleanup()
+    return viol
+
+
 def build(tier, seed):
     cfgs = _configs(tier)
     tasks = []
     for p in _programs(tier):
         tasks.append({"prog": p, "cfgs": cfgs})
+    hs = _histories(tier)
+    tasks += [{"hist": hs[i : i + 6]} for i in range(0, len(hs), 6)]
     return tasks
 
 
@@ -219,6 +275,8 @@ def _expect(prog):
 def run_case(case):
     from ..drivers import plugin
 
+    if "history" in case:
+        return _run_history(case)
     prog, cfg = case["prog"], case["cfg"]
     src = source(prog)
     if cfg["flags"] == ["disable"] and "\ns = snapshot()\n" in src:
@@ -259,6 +317,16 @@ def run_case(case):
 
 def run_task(task):
     out = {"n": 0, "nontrivial": [], "outcomes": {}, "violations": [], "samples": []}
+    if "hist" in task:
+        for case in task["hist"]:
+            vs = _run_history(case)
+            out["n"] += 1
+            lab = "viol:" + vs[0]["what"] if vs else "ok:bytecode-cache-history"
+            out["violations"] += vs
+            if not vs:
+                out["nontrivial"].append("hist|%s" % case["history"])
+            out["outcomes"][lab] = out["outcomes"].get(lab, 0) + 1
+        return out
     prog = task["prog"]
     exp = _expect(prog)
     for cfg in task["cfgs"]:
